@@ -81,7 +81,7 @@ theorem reach_symm_bishop' (occ : BB) (s t : Nat) (hs : s < 64) (ht : t < 64) :
     cases Geo.reachAlong .SE occ t s <;> cases Geo.reachAlong .SW occ t s <;> rfl
 
 
-theorem absPos_at (p : Pos) (s : Nat) : (absPos p).at s = p.at s := by
+theorem absPos_at_A (p : Pos) (s : Nat) : (absPos p).at s = p.at s := by
   simp [absPos, Fide.Pos.at, Pos.at, vget]
 
 structure ShapeAt (p : Pos) (s : Nat) : Prop where
@@ -122,7 +122,7 @@ theorem wfShape_all (p : Pos) (hw : wfShape p = true) : p.all = p.white ||| p.bl
 
 theorem valid_codes : ∀ pc < 16, validPiece pc = true → pc ∈ [1,2,3,4,5,6,9,10,11,12,13,14] := by decide
 
-theorem validPiece_lt (pc : Nat) (h : validPiece pc = true) : pc < 16 := by
+theorem validPiece_lt_A (pc : Nat) (h : validPiece pc = true) : pc < 16 := by
   unfold validPiece pieceColor at h
   simp only [Bool.and_eq_true, decide_eq_true_eq] at h
   have := h.1
@@ -133,7 +133,7 @@ theorem wfShape_code (p : Pos) (hw : wfShape p = true) (a : Nat) (ha : a < 64) :
     p.at a ∈ [0,1,2,3,4,5,6,9,10,11,12,13,14] := by
   rcases (wfShape_at p hw a ha).valid with h | h
   · rw [h]; decide
-  · have := valid_codes _ (validPiece_lt _ h) h
+  · have := valid_codes _ (validPiece_lt_A _ h) h
     exact List.mem_cons_of_mem _ this
 
 
@@ -236,7 +236,7 @@ theorem all_bit (p : Pos) (hw : wfShape p = true) (a : Nat) (ha : a < 64) :
 theorem byColor_bit (p : Pos) (hw : wfShape p = true) (c a : Nat) (hc : c < 2) (ha : a < 64) :
     (p.byColor c).getLsbD a = Fide.isOwn (absPos p) c a := by
   unfold Fide.isOwn Pos.byColor
-  rw [absPos_at]
+  rw [absPos_at_A]
   have hc' : c = 0 ∨ c = 1 := by omega
   rcases hc' with rfl | rfl
   · rw [if_pos rfl, white_bit p hw a ha]
@@ -249,7 +249,7 @@ theorem rayFrom_contains (p : Pos) (hw : wfShape p = true) (d : Dir) (a t : Nat)
   rw [reachAlong_eq_from]
   apply rayFrom_go_contains
   intro u hu
-  rw [absPos_at, all_bit p hw u hu]
+  rw [absPos_at_A, all_bit p hw u hu]
 
 theorem slider_any (p : Pos) (hw : wfShape p = true) (dirs : List Dir) (a t : Nat) :
     (dirs.any fun d => (Fide.rayFrom (absPos p) d a).contains t) = Geo.reach dirs p.all a t := by
@@ -288,7 +288,7 @@ theorem squareAttackedBy_exact' (p : Pos) (hw : wfShape p = true) (sq a : Nat) (
     (squareAttackedBy p sq).getLsbD a = Fide.pieceAttacks (absPos p) a sq := by
   rw [squareAttackedBy_bit p hw sq a hsq ha]
   unfold Fide.pieceAttacks
-  simp only [absPos_at, slider_any p hw]
+  simp only [absPos_at_A, slider_any p hw]
   have hk := knightStep_symm_all sq hsq a ha
   have hg := kingStep_symm_all sq hsq a ha
   obtain ⟨hp0, hp1⟩ := pawnAttack_symm_all sq hsq a ha
@@ -350,7 +350,7 @@ theorem squares_king (p : Pos) (hw : wfShape p = true) (c : Nat) (hc : c < 2) :
   apply List.filter_congr
   intro s hs
   rw [List.mem_range] at hs
-  rw [wfShape_bit p hw c KING s hc (by decide) hs, absPos_at]
+  rw [wfShape_bit p hw c KING s hc (by decide) hs, absPos_at_A]
   have : newPiece c KING = Fide.mkPiece c 5 := by unfold newPiece Fide.mkPiece KING; omega
   rw [this]
 
